@@ -218,6 +218,10 @@ type samplerDef struct {
 	Name   string
 	Class  string
 	Choice func() *config.V2SamplerChoice
+	// Pre, if set: the spans are ingested while THIS sampler is configured for the dataset; the rules are then
+	// reloaded to Choice before the traces are decided (a reload between ingestion and decision: what an encoding
+	// worked out for the old rules at ingestion must not leak into the decision under the new ones)
+	Pre func() *config.V2SamplerChoice
 }
 
 func cond(field, op string, value any, datatype string) *config.RulesBasedSamplerCondition {
@@ -295,6 +299,14 @@ func samplers() []samplerDef {
 			{Name: "rest", SampleRate: 1},
 		}}}
 	})
+	// rules reloaded between ingestion and decision: ingested under a dynamic sampler keyed on n, decided by rules
+	// that read n and a field that follows it on the wire
+	out = append(out, samplerDef{Name: "reloaded:dynamic-n->rules-n-ge-1.5-and-sid-exists", Class: "rules/reloaded",
+		Pre:    func() *config.V2SamplerChoice { return &config.V2SamplerChoice{DynamicSampler: dyn(false, "n")} },
+		Choice: ruleSampler("", cond("n", ">=", 1.5, ""), cond("sid", "exists", nil, ""))})
+	out = append(out, samplerDef{Name: "reloaded:rules-n-eq-200->dynamic-sid-n", Class: "dynamic/reloaded",
+		Pre:    ruleSampler("", cond("n", "=", 200, "")),
+		Choice: func() *config.V2SamplerChoice { return &config.V2SamplerChoice{DynamicSampler: dyn(false, "sid", "n")} }})
 	add("dynamic-n", "dynamic", func() *config.V2SamplerChoice { return &config.V2SamplerChoice{DynamicSampler: dyn(false, "n")} })
 	add("dynamic-root.n-tracelength", "dynamic", func() *config.V2SamplerChoice { return &config.V2SamplerChoice{DynamicSampler: dyn(true, "root.n")} })
 	add("deterministic-2", "deterministic", func() *config.V2SamplerChoice {
@@ -310,7 +322,11 @@ func newConfig(defs []samplerDef) *config.MockConfig {
 	cfg.Samplers = map[string]*config.V2SamplerChoice{}
 	for _, s := range defs {
 		if _, ok := cfg.Samplers[dataset(s)]; !ok {
-			cfg.Samplers[dataset(s)] = s.Choice()
+			if s.Pre != nil {
+				cfg.Samplers[dataset(s)] = s.Pre()
+			} else {
+				cfg.Samplers[dataset(s)] = s.Choice()
+			}
 		}
 	}
 	cfg.AddRuleReasonToTrace = true
@@ -434,9 +450,27 @@ func otlpSpan(it item, si int) codec.OTLPSpan {
 
 // runJob presents all items (distinct trace IDs) to one fresh collector and returns the sampler's answer
 // per item. problem != "" = the harness could not get the spans into the collector (never a verdict).
+// reloadRules installs c as the dataset's sampler on both nodes and lets the owner's collector go through its reload
+// path (reloadConfigs; every worker consumes its reload notification).
+func (w *worker) reloadRules(ds string, c func() *config.V2SamplerChoice) {
+	for _, n := range []*pipeline.Node{w.a, w.b} {
+		ch := c()
+		n.Cfg.Mux.Lock()
+		n.Cfg.Samplers[ds] = ch
+		n.Cfg.Mux.Unlock()
+	}
+	w.rc.Coll.VerifReloadConfigs()
+	for i := 0; i < w.rc.Coll.VerifNumWorkers(); i++ {
+		w.rc.Coll.VerifWorkerRunPending(i)
+	}
+}
+
 func (w *worker) runJob(s samplerDef, items []item) (out []outcome, problem string) {
 	w.rc.Reset()
 	ds := dataset(s)
+	if s.Pre != nil {
+		w.reloadRules(ds, s.Pre) // (the previous job of this definition left the post-reload sampler behind)
+	}
 	usedPeer := false
 	want := 0
 	for pos := 0; pos < 3; pos++ {
@@ -570,6 +604,9 @@ func (w *worker) runJob(s samplerDef, items []item) (out []outcome, problem stri
 	// The kept traces stay on the collector's outgoing queue and are discarded with the collector at the
 	// next Reset: what is transmitted afterwards is C01/C02/C20's subject, and not sending keeps node A's
 	// transmissions empty (no flush needed between jobs).
+	if s.Pre != nil {
+		w.reloadRules(ds, s.Choice)
+	}
 	dec := w.rc.Decide()
 	if len(dec) != len(items) {
 		return nil, fmt.Sprintf("%d decisions for %d traces", len(dec), len(items))
